@@ -100,6 +100,7 @@ func runExhaustive(res *lib.Result, pool *DrvPool, v Variant, r *lib.RNG) {
 				some = append(some, filters[i])
 			}
 			w.runSubscriptions(some)
+			w.runSubscriptionsV8(some)
 		}
 		w.close()
 	}
